@@ -111,9 +111,10 @@ Lemma ctxinfo_c06 : c06_ok c_ctxinfo. Proof. apply c_ctxinfo_ok. Qed.
 Lemma authctx_c06 : c06_ok c_authctx. Proof. apply c_authctx_ok. Qed.
 
 Section WithAddr.
-  Variable addr_ok : Z -> list byte -> bool.
-  Lemma address_full : c11_full (c_address addr_ok).
-  Proof. apply c11_full_of; [apply c_address_ok|intros [] _; reflexivity]. Qed.
-  Lemma output_full : c11_full (c_output addr_ok).
-  Proof. apply c11_full_of; [apply c_output_ok|intros [[] ?] _; reflexivity]. Qed.
+  Variable addr_norm : Z -> list byte -> option (Z * list byte).
+  Hypothesis Hnorm : addr_norm_sound addr_norm.
+  Lemma address_full : c11_full (c_address addr_norm).
+  Proof. apply c11_full_of; [apply c_address_ok; exact Hnorm|intros [] _; reflexivity]. Qed.
+  Lemma output_full : c11_full (c_output addr_norm).
+  Proof. apply c11_full_of; [apply c_output_ok; exact Hnorm|intros [[] ?] _; reflexivity]. Qed.
 End WithAddr.
